@@ -59,7 +59,7 @@ func c13Expect(c c13Case) (codes []int, marks []string, closed bool) {
 	codes = make([]int, n)
 	marks = make([]string, n)
 	set := make([]bool, n)
-	retCode, retMark := 250, "OK: queued"
+	retCode, retMark := 250, "" // (a positive reply's wording is the server's business)
 	if c.RetErr {
 		retCode, retMark = 451, "return-value-error"
 	}
@@ -92,7 +92,7 @@ func c13Expect(c c13Case) (codes []int, marks []string, closed bool) {
 				if seen == k {
 					set[i] = true
 					if s.OK {
-						codes[i], marks[i] = 250, "OK: queued"
+						codes[i], marks[i] = 250, ""
 					} else {
 						codes[i], marks[i] = 550+si, fmt.Sprintf("status-call-%d", si)
 					}
@@ -263,7 +263,8 @@ func c13Run(c c13Case) Verdict {
 		if len(rs) == 0 {
 			return failf("replies", "no reply to the first chunk")
 		}
-		if rs[0].Code == 250 && strings.Contains(rs[0].Text(), "Continue") {
+		if rs[0].Code == 250 {
+			// (one recipient-less 250: the acknowledgement of the first chunk)
 			rs = rs[1:]
 		} else if !c.Early && c.Panic != "before" {
 			return failf("replies", "first chunk answered %s", rs[0])
